@@ -548,23 +548,32 @@ def x5(prog: Program, chk: Check) -> None:
                     f"{len(sigs)} path(s)" if ok else
                     f"a path returns {bad_sig}: the transform acts on the wrong leg / with the "
                     f"wrong orientation (or the expression is outside the index calculus)")
+    for (u2, construct, ok, detail, node) in raw_discipline(prog):
+        chk.add("X5", u2, construct, ok, detail, node)
+
+
+def raw_discipline(prog: Program):
+    """[(unit, construct, ok, detail, node)]: import reads and export writes RAW MPO tensors
+    (the transforms travel separately)."""
+    out = []
     im = prog.unit(f"{PT}:import_process_tensor")
     for c in walk_local(im.node):
         if isinstance(c, ast.Call) and method_call(c) and method_call(c)[1] == "get_mpo_tensor":
             tv = next((k.value for k in c.keywords if k.arg == "transformed"),
                       c.args[1] if len(c.args) > 1 else None)
             ok = isinstance(tv, ast.Constant) and tv.value is False
-            chk.add("X5", im, f"import: {norm(c)}", ok,
-                    "raw tensors are copied" if ok else
-                    "import copies TRANSFORMED tensors into an object that transforms again", c)
+            out.append((im, f"import: {norm(c)}", ok,
+                        "raw tensors are copied" if ok else
+                        "import copies TRANSFORMED tensors into an object that transforms again", c))
     ex = prog.unit(f"{PT}:SimpleProcessTensor.export")
     raw = not any(isinstance(c, ast.Call) and method_call(c)
                   and method_call(c)[1] == "get_mpo_tensor"
                   and not any(k.arg == "transformed" and isinstance(k.value, ast.Constant)
                               and k.value.value is False for k in c.keywords)
                   for c in walk_local(ex.node))
-    chk.add("X5", ex, "export writes raw tensors", raw,
-            "" if raw else "export writes transformed tensors next to the transforms")
+    out.append((ex, "export writes raw tensors", raw,
+                "" if raw else "export writes transformed tensors next to the transforms", None))
+    return out
 
 
 # --------------------------------------------------------------------- X6
